@@ -279,7 +279,7 @@ func (r *runner) report(kind string, o *obs, what string) {
 	name := fmt.Sprintf("%s-%s-%s.json", r.prop, kind[:3], hex.EncodeToString(h[:6]))
 	path := filepath.Join(r.replayDir, name)
 	rep := map[string]interface{}{
-		"property": r.prop, "kind": kind, "suite": o.Suite, "seed": r.seed, "input": o.Input, "case": o.Human,
+		"property": r.prop, "kind": kind, "suite": o.Suite, "seed": r.seed, "tier": r.tier, "input": o.Input, "case": o.Human,
 		"observed": o.Impl, "model": o.Model, "what": what, "sig": o.Sig,
 		"how_to_rerun": fmt.Sprintf("bin/check %s quick --replay %s", r.prop, path),
 	}
